@@ -174,6 +174,9 @@ func compile(g *lookup, tok *token, optimize bool) (ins []instruction, slots int
 func (c *compiler) run(tok *token) (ins []instruction, slots int, err error) {
 	defer func() {
 		if r := recover(); r != nil {
+			if c.cur == nil {
+				c.cur = tok
+			}
 			err = fmt.Errorf("%v: %v", c.cur.Pos, r)
 		}
 	}()
@@ -283,6 +286,9 @@ var builtinMap = map[string]code{
 }
 
 func (c *compiler) compile(tok *token) []instruction {
+	if tok == nil {
+		panicf("missing expression")
+	}
 	c.cur = tok
 	var res []instruction
 	switch tok.Symbol {
